@@ -746,8 +746,8 @@ def rule_R3(F, R):
             if is_plumbing(c.term(s)):
                 continue
             bo = bool_origin(fl, c.term(s)["o"])
-            if bo and any(n.endswith("::contains") for n in call_names(bo[1])):
-                okg = True
+            if bo and any(n.endswith("::contains") or re.search(r"(HashSet::<T, S, A>|BTreeSet::<T, A>)::insert$", n) for n in call_names(bo[1])):
+                okg = True   # the exact form (polarity, the set kept up to date, its origin) is R7's
         if okg:
             R.ok("R3", "add_to_working_set guarded by a membership test", where(tb, i))
         else:
@@ -840,6 +840,44 @@ def rule_L1(F, R):
             R.violation("L1", subj, "applied-value-not-operations", "apply_operations is not given the committed `operations`", where(b, ap[0][0]))
 
 
+_REMOVE = re.compile(r"HashMap::<K, V, S, A>::(remove|remove_entry)$|hash_map::OccupiedEntry::<'a, K, V, A>::(remove|remove_entry)$")
+
+
+def _drops_pending(F, path):
+    """does this path take an entry out of the write cache and neither write it with set_task
+    nor establish that it held no pending task (the removed value tested to be None)?"""
+    removes = [e for e in path.events if any(_REMOVE.search(n) for n in e["names"])]
+    for r in removes:
+        written = any(e["callee"].endswith("StorageTxn::set_task") and _has(e["args"], lambda v: v[0] == "C" and v[1] == r["id"]) for e in path.events)
+        if written:
+            continue
+        tests = [(a, o) for (a, o, _bb) in path.atoms if a[0] == "variant" and _has(a[1], lambda v: v[0] == "C" and v[1] == r["id"])]
+        if tests and tests[-1][1] == "None":
+            continue
+        return True
+    return False
+
+
+_hdp_cache = {}
+
+
+def _helper_drops_pending(F, name):
+    if name in _hdp_cache:
+        return _hdp_cache[name]
+    _hdp_cache[name] = False
+    hb = F.real_body(name)
+    res = False
+    if hb is not None:
+        try:
+            for q in SymExec(hb, cfg_of(hb), max_paths=500).run():
+                if q.end[0] == "return" and not (q.ret[0] == "A" and q.ret[2] == "Err") and _drops_pending(F, q):
+                    res = True
+        except Exception:
+            res = False
+    _hdp_cache[name] = res
+    return res
+
+
 def rule_A1(F, R):
     R.begin("A1", "batch application dispatch (one loop iteration): Create invalidates/flushes the cached entry of that task and calls create_task; Delete calls delete_task and overwrites the cache entry; Update goes through the cache and writes nothing when the task is absent; UndoPoint touches nothing; afterwards every cached task is written back")
     import roles
@@ -906,8 +944,11 @@ def rule_A1(F, R):
             seen.add(kind)
             ct = [e for e in st if e["callee"].endswith("::create_task")]
             ow = [e for e in evs if helper_kind(e) and _has(e["args"], lambda v: v == uuid)]
+            dropped = _drops_pending(F, p) or any(_helper_drops_pending(F, e["callee"]) for e in ow if e["callee"] in F.bodies)
             if len(ct) != 1 or ct[0]["args"][-1] != uuid:
                 R.violation("A1", subj, "create-arm", "Create must call create_task(uuid) exactly once: %s" % desc, w)
+            elif dropped:
+                R.violation("A1", subj, "create-drops-pending-updates", "the Create arm removes the cached entry of that task without writing it: updates made earlier in the batch to the (existing) task and not yet written are lost, while the operations log still records them: %s" % desc, w)
             elif not ow:
                 R.violation("A1", subj, "create-keeps-stale-cache", "the Create arm does not remove or overwrite the cached entry of that task: a cached `absent` (from an earlier update of the then-missing task) makes later updates in the batch vanish: %s" % desc, w)
             else:
@@ -1030,3 +1071,80 @@ def rule_R6(F, R):
             else:
                 R.ok("R6", "every successful return of the replica's sync has rebuilt the working set", where(body, i))
     R.floor("R6", "Replica methods that run the TaskDb sync", n, 1)
+
+
+def rule_R7(F, R):
+    R.begin("R7", "commit_operations adds a task to the working set at most once: every add_to_working_set(uuid) is guarded by a membership test on a set that starts as the stored working set and takes up each added uuid (so a task named by several operations of the batch, also non-adjacent ones, is added once, and one already present is not added)")
+    from tc.util import ref_base, switch_true_edges
+    n = 0
+    for p, b in sorted(F.bodies.items()):
+        if not p.startswith("taskdb::") or p.startswith("taskdb::working_set") or not b.get("blocks"):
+            continue
+        c = cfg_of(b)
+        adds = calls_matching(c, re.escape(TXN) + "::add_to_working_set$")
+        if not adds:
+            continue
+        fl = flow_of(b)
+        for (i, t) in adds:
+            n += 1
+            verdict = None
+            for (s, labs) in guards_of(c, i):
+                bo = bool_origin(fl, c.term(s)["o"])
+                if not bo:
+                    continue
+                names = call_names(bo[1])
+                te = {lab for (_s, _j, lab) in switch_true_edges(c, s, bo[2])}
+                on_true = set(labs) <= te
+                if any(re.search(r"HashSet::<T, S, A>::contains$|BTreeSet::<T, A>::contains$", x) for x in names) and not on_true:
+                    st = ref_base(fl, bo[1]["args"][0])
+                    ssl = fl.slice_local(st) if st is not None else None
+                    from_ws = bool(ssl and ssl.has_call(r"StorageTxn::get_working_set$"))
+                    ins = [k for (k, tt) in c.calls() if any(re.search(r"(HashSet::<T, S, A>|BTreeSet::<T, A>)::insert$", x) for x in call_names(tt)) and ref_base(fl, tt["args"][0]) == st and c.dominates(i, k)]
+                    # the uuid inserted is the one added
+                    same = [k for k in ins if fl.slice_operand(c.term(k)["args"][1]).roots & fl.slice_operand(t["args"][-1]).roots]
+                    if not from_ws:
+                        verdict = verdict or "the membership set is not initialised from the stored working set"
+                    elif not same:
+                        verdict = verdict or "the added uuid is not put into the membership set: a task named again later in the same batch is added a second time"
+                    else:
+                        verdict = "ok"
+                elif any(re.search(r"(HashSet::<T, S, A>|BTreeSet::<T, A>)::insert$", x) for x in names) and on_true:
+                    st = ref_base(fl, bo[1]["args"][0])
+                    ssl = fl.slice_local(st) if st is not None else None
+                    verdict = "ok" if (ssl and ssl.has_call(r"StorageTxn::get_working_set$")) else (verdict or "the membership set is not initialised from the stored working set")
+            if verdict == "ok":
+                R.ok("R7", "add_to_working_set guarded by a membership set that is kept up to date", where(b, i))
+            else:
+                R.violation("R7", F.owner(p), "working-set-add-not-once", "add_to_working_set is not protected against adding a task twice: %s" % (verdict or "no membership guard"), where(b, i))
+    R.floor("R7", "add_to_working_set sites in taskdb (outside the rebuild)", n, 1)
+
+
+def rule_R8(F, R):
+    R.begin("R8", "rebuild write-back order: the writes that blank the tail (set_working_set_item(i, None) for the indices beyond the new length) come last. The storage contract lets set_working_set_item address only existing indices, and the in-memory storage drops trailing blanks after every write: an in-range write issued after the tail was blanked can find its index gone, and the rebuild fails with the gaps left in place")
+    b = find_rebuild(F)
+    if b is None:
+        R.missing("R8", "the rebuild function")
+        return
+    c = cfg_of(b)
+    sets = calls_matching(c, re.escape(TXN) + "::set_working_set_item$")
+    if not R.floor("R8", "set_working_set_item sites in the rebuild", len(sets), 2):
+        return
+    fl = flow_of(b)
+
+    def writes_const_none(t):
+        a = t["args"][-1]
+        if "k" in a:
+            return "None" in str(a["k"].get("repr", ""))
+        sl = fl.slice_operand(a)
+        return (not sl.params()) and (not sl.root_calls()) and all(r[0] in ("const", "unit", "agg") or (r[0] == "opaque") for r in sl.roots) and any("None" in str(r) for r in sl.roots)
+    blank = [(i, t) for (i, t) in sets if writes_const_none(t)]
+    if not blank:
+        R.info("R8", "no constant-None tail write found (the tail may be cleared another way)")
+        R.ok("R8", "no tail-blanking write precedes another write", where(b))
+        return
+    for (i, t) in blank:
+        later = [k for (k, _t2) in sets if k != i and k in c.reachable_after(i)]
+        if later:
+            R.violation("R8", b["owner_fn"], "write-after-tail-blanked", "set_working_set_item at %s can run after the tail of the working set was blanked at %s: on the in-memory storage the blanked tail is trimmed at once, so a following write to an index that was the last occupied-or-blank slot fails (`Index N is not in the working set`) and the rebuild is abandoned" % (loc(c.term(later[0])["sp"]), loc(t["sp"])), where(b, i))
+        else:
+            R.ok("R8", "tail blanking is the last group of writes", where(b, i))
